@@ -80,7 +80,7 @@ def eval_history(args):
 
 
 def run(tier, seed, open_findings):
-    rng = random.Random(seed); n = 300 if tier == 'thorough' else 80
+    rng = random.Random(seed); n = 4000 if tier == 'thorough' else 80
     hists = [[(rng.choice(OPS), rng.randrange(len(DOCS))) for _ in range(6)] for _ in range(n)]
     jobs = [(ver, h) for h in hists for ver in ('1.0', '1.1')]
     res = pmap(eval_history, jobs, chunk=2)
